@@ -101,6 +101,19 @@ func (c *Cluster) metaCells(r *Region) []Cell {
 		StartKey: r.Start, EndKey: r.Stop, Offline: proto.Bool(r.MetaOffline), Split: proto.Bool(false)}
 	body, _ := proto.Marshal(ri)
 	info := []byte("info")
+	if r.MetaReplicaOnly != "" {
+		// no location for the region itself (an empty info:server for odd ids, none
+		// for even ones), only the columns of replica 1
+		cells := []Cell{{Row: r.Name, Family: info, Qualifier: []byte("regioninfo"), TS: r.ID, Type: TypePut, Value: append([]byte("PBUF"), body...)}}
+		cells = append(cells, Cell{Row: r.Name, Family: info, Qualifier: []byte("seqnumDuringOpen_0001"), TS: r.ID, Type: TypePut, Value: []byte{0, 0, 0, 0, 0, 0, 0, 2}})
+		if len(r.Name)%2 == 1 {
+			cells = append(cells, Cell{Row: r.Name, Family: info, Qualifier: []byte("server"), TS: r.ID, Type: TypePut, Value: []byte{}})
+		}
+		cells = append(cells,
+			Cell{Row: r.Name, Family: info, Qualifier: []byte("server_0001"), TS: r.ID, Type: TypePut, Value: []byte(r.MetaReplicaOnly)},
+			Cell{Row: r.Name, Family: info, Qualifier: []byte("serverstartcode_0001"), TS: r.ID, Type: TypePut, Value: []byte{0, 0, 1, 0x5c, 0, 0, 0, 1}})
+		return cells
+	}
 	return []Cell{
 		{Row: r.Name, Family: info, Qualifier: []byte("regioninfo"), TS: r.ID, Type: TypePut, Value: append([]byte("PBUF"), body...)},
 		{Row: r.Name, Family: info, Qualifier: []byte("seqnumDuringOpen"), TS: r.ID, Type: TypePut, Value: []byte{0, 0, 0, 0, 0, 0, 0, 2}},
@@ -363,13 +376,15 @@ func (c *Cluster) handleScan(req *Request) *Reply {
 		closeScanner(why)
 		info += " end-of-region"
 	}
-	if f := c.ForceNoMoreResults; f != nil && !st.closed && st.table != "hbase:meta" && st.fragOff == 0 {
+	if f := c.ForceNoMoreResults; f != nil && (!st.closed || (len(st.rows) == 0 && !st.lastRegion)) && st.table != "hbase:meta" && st.fragOff == 0 {
 		c.mu.Unlock()
 		force := f(req)
 		c.mu.Lock()
 		if force {
 			// the server ends the scan (limit / filter) while this region scanner
-			// still has rows: it stays open until the client closes it
+			// still has rows: it stays open until the client closes it. Or it ends
+			// the scan with the last row of a region that is not the last in range
+			// (more_results=false together with more_results_in_region=false)
 			resp.MoreResults = proto.Bool(false)
 			info += " forced-no-more-results"
 		}
